@@ -128,7 +128,7 @@ class PathState:
 class Exec:
     def __init__(self, f, call_handler, havoc=None, word_args=(), unroll=False, arg_consts=None, int_cells=None, auto=False,
                  split_max=8, starts=None, pre_conds=(), callee_writes=None, word_phis=None, fresh_per_entry=False, exit_eq=None, unrotate=False,
-                 head_consts=None):
+                 head_consts=None, congr=None):
         """call_handler(ex, path, inst, callee, argvalues) -> result value or None
         havoc(ex, path, header) is called when a fresh iteration starts at a loop header"""
         self.f = f
@@ -150,6 +150,7 @@ class Exec:
         self.fresh_per_entry = fresh_per_entry
         self.exit_eq = exit_eq or {}      # header block -> (phi inst id, Lf): value of that induction variable when the loop is left through its header test
         self.callee_writes = callee_writes or {}   # callee -> {arg index: (offset, nbytes)} it may write (else: whole object)
+        self.congr = dict(congr or {})  # ("hd", phi id) -> (Lf E, g): the loop-carried integer stays congruent to E modulo g (it starts at E and moves in steps of g)
         self.hdp_origin = {}          # ("hdp", phi id) -> object the loop-carried pointer walks through (from its value on entry)
         self.head_consts = dict(head_consts or {})  # phi id -> concrete value the generic iteration starts with (a loop-carried helper index with a finite orbit)
         # guarded bottom-tested loops ("if (n >= 4) do { ... } while (n >= 4);") summarised as the top-tested loop they are equivalent to:
@@ -1000,6 +1001,16 @@ class Exec:
             return res.pop()
         return None
 
+    def _congr_propagate(self, q, sym, v):
+        """sym == v is known and sym is congruent to E modulo g: a remainder E % c (c | g) computed anywhere on the path is v % c"""
+        ent = self.congr.get(sym)
+        if ent is None:
+            return
+        E, g = ent
+        for (_k, (qs, rs, sa, cb)) in q.divs.items():
+            if sa == E and cb > 0 and g % cb == 0 and rs not in q.eqs:
+                q.eqs[rs] = v % cb
+
     def _split(self, p, sp):
         """case split of a path on a symbol whose feasible set is a small finite set (residue classes)"""
         if not sp:
@@ -1009,6 +1020,7 @@ class Exec:
         for v in vals:
             q = p.clone()
             q.eqs[sym] = v
+            self._congr_propagate(q, sym, v)
             q.events.append(("class", repr(sym), v))
             out.append(q)
         return out
@@ -1065,6 +1077,7 @@ class Exec:
             cand = [x for x in range(lo, hi + 1) if x not in excl]
             if len(cand) == 1:
                 p.eqs[s] = cand[0]
+                self._congr_propagate(p, s, cand[0])
             elif 1 < len(cand) <= self.split_max and isinstance(s, tuple) and s[0] in ("hd", "n", "fld", "rem"):
                 return (s, cand)
         return None
